@@ -119,71 +119,112 @@ def root_key(root, sels, env):
 
 
 def check_lambda(chk, F, E, f, call, lam, spec):
-    locals_ = lambda_locals(spec)
-    sc = Scope(params=spec["params"])
+    """Footprint of the per-segment callable: every write to a location that outlives one call must be indexed
+    injectively by the segment index.  Member functions of the same class called from the callable are followed with
+    their reference parameters bound to what they are given and the segment-index argument still being the index."""
+    sc0 = Scope(params=spec["params"])
     for n in walk(spec.get("body")):
         if n.get("k") == "decl":
-            sc.bind_local(n)
+            sc0.bind_local(n)
     param_txt = "$p0"
-    # 1. write targets
-    env = Env()
     written = {}
-    viol = []
-    def targets(n):
-        k = n.get("k")
-        if k == "assign":
-            yield n["l"], "assign"
-        elif k == "un" and n["op"] in ("++", "--"):
-            yield n["e"], n["op"]
-        elif k == "call":
-            c = callee(n)
-            nm, ns, op = c.get("name"), c.get("ns"), c.get("op")
-            if "obj" in n and ((op in ASSIGN_OPS and op != ",") or nm in EIGEN_MUTATORS or nm in STD_MUTATORS):
-                yield n["obj"], "op" + str(op or nm)
-            pm = c.get("pm", [])
-            if ns not in ("Eigen",) and not (ns == "std" and nm in ("move", "forward", "max", "min", "isfinite", "abs", "sqrt")):
-                for i, a in enumerate(n.get("args", [])):
-                    if i < len(pm) and pm[i] in ("ref", "rref", "ptr"):
-                        fid = c.get("fid")
-                        if fid in F.by_fid:
-                            if i not in E.summary(fid)["params"]:
-                                continue
-                        yield a, "by-ref argument of " + str(nm)
-            if "obj" in n and c.get("fid") in F.by_fid and not c.get("const") and not op:
-                yield n["obj"], "non-const member " + str(nm)
-    nwrites = 0
-    for n in walk(spec.get("body")):
-        for tgt, how in targets(n):
-            for root, sels, top in access_chains(tgt):
-                if root.get("k") == "var" and root["id"] in locals_:
-                    continue
-                if tgt is not top and not _is_prefix_chain(tgt, top):
-                    pass
-                nwrites += 1
-                key = root_key(root, sels, env)
-                ic = index_class(sels, sc, param_txt)
-                inst = "write %s (%s)" % (pp(tgt), how)
-                if ic == "inj":
-                    written.setdefault(key, []).append(n)
-                    chk.ob("C12-R1", "%s :: %s" % (f["full"][:90], inst), True, loc(f, n),
-                           "location outside the callable, indexed injectively by the segment index", construct="%s/lambda/%s" % (f["cls"], pp(tgt)))
+    nwrites = [0]
+    handed_on = set()
+
+    def scan(body, locals_, sc, env, depth, via):
+        def targets(n):
+            k = n.get("k")
+            if k == "assign":
+                yield n["l"], "assign"
+            elif k == "un" and n["op"] in ("++", "--"):
+                yield n["e"], n["op"]
+            elif k == "call":
+                c = callee(n)
+                nm, ns, op = c.get("name"), c.get("ns"), c.get("op")
+                if "obj" in n and ((op in ASSIGN_OPS and op != ",") or nm in EIGEN_MUTATORS or nm in STD_MUTATORS):
+                    yield n["obj"], "op" + str(op or nm)
+                pm = c.get("pm", [])
+                g = F.by_fid.get(c.get("fid"))
+                if g is not None and g.get("cls") == f.get("cls") and g.get("body") is not None and depth < 4 and ("obj" not in n or n["obj"].get("k") == "this"):
+                    follow(n, g)
+                    return
+                if ns not in ("Eigen",) and not (ns == "std" and nm in ("move", "forward", "max", "min", "isfinite", "abs", "sqrt")):
+                    for i, a in enumerate(n.get("args", [])):
+                        if i < len(pm) and pm[i] in ("ref", "rref", "ptr"):
+                            fid = c.get("fid")
+                            if fid in F.by_fid:
+                                if i not in E.summary(fid)["params"]:
+                                    continue
+                            yield a, "by-ref argument of " + str(nm)
+                if "obj" in n and c.get("fid") in F.by_fid and not c.get("const") and not op:
+                    yield n["obj"], "non-const member " + str(nm)
+
+        def follow(n, g):
+            # the callee's body is part of the callable: reference parameters denote the caller's locations, value
+            # parameters are the callee's own locals; the parameter that receives the segment index keeps being the index
+            sc2 = Scope(params=[])
+            env2 = Env(env)
+            loc2 = set()
+            for i, (p_, a_) in enumerate(zip(g["params"], n.get("args", []))):
+                ty = p_["ty"]
+                if ty.get("ref") or ty.get("c") == "ptr":
+                    for m_ in walk(a_):
+                        handed_on.add(id(m_))       # what the callee does with it is analysed in the callee
+                    chains = list(access_chains(a_))
+                    if chains and not (chains[0][0].get("k") == "var" and chains[0][0]["id"] in locals_):
+                        r_, s_, t_ = chains[0]
+                        env2.alias[p_["id"]] = [root_key(r_, s_, env)]
+                    else:
+                        loc2.add(p_["id"])         # bound to a local of the caller: private to this call
                 else:
-                    chk.ob("C12-R1", "%s :: %s" % (f["full"][:90], inst), False, loc(f, n),
-                           "the per-segment callable writes %s, which is shared by all iterations (%s); concurrent iterations race and the result depends on the schedule"
-                           % (pp(tgt), "not indexed by the segment index" if ic == "whole" else "index form " + str(ic[1])),
-                           construct="%s/lambda/%s" % (f["cls"], pp(tgt)))
-                break  # the outermost chain of the target is the written location
-    # 2. every access (read or write) to the written buffers uses the same injective index
-    for root, sels, top in access_chains(spec.get("body")) if False else _all_chains(spec.get("body")):
-        if root.get("k") == "var" and root["id"] in locals_:
-            continue
-        key = root_key(root, sels, env)
-        if key in written:
-            ic = index_class(sels, sc, param_txt)
-            if ic != "inj":
-                chk.ob("C12-R1", "%s :: access %s" % (f["full"][:90], pp(top)), False, loc(f, top),
-                       "buffer written per segment is accessed with another iteration's index (%s)" % (ic,), construct="%s/lambda/access/%s" % (f["cls"], pp(top)))
-    return nwrites
+                    loc2.add(p_["id"])
+                    try:
+                        txt = canon(a_, sc)
+                    except Exception:
+                        txt = "?"
+                    sc2.param[p_["id"]] = txt if txt == param_txt else "$arg%d_%d" % (depth, i)
+            for m_ in walk(g.get("body")):
+                if m_.get("k") == "decl":
+                    loc2.add(m_["id"])
+                    sc2.bind_local(m_)
+                if m_.get("k") == "rfor":
+                    loc2.add(m_["var"]["id"])
+            scan(g["body"], loc2, sc2, env2, depth + 1, via + [g["name"]])
+
+        for n in walk(body):
+            for tgt, how in targets(n):
+                for root, sels, top in access_chains(tgt):
+                    if root.get("k") == "var" and root["id"] in locals_:
+                        continue
+                    nwrites[0] += 1
+                    key = root_key(root, sels, env)
+                    ic = index_class(sels, sc, param_txt)
+                    inst = "write %s (%s)%s" % (pp(tgt), how, (" in " + "/".join(via)) if via else "")
+                    if ic == "inj":
+                        written.setdefault(key, []).append(n)
+                        chk.ob("C12-R1", "%s :: %s" % (f["full"][:90], inst), True, loc(f, n),
+                               "location outside the callable, indexed injectively by the segment index", construct="%s/lambda/%s%s" % (f["cls"], "/".join(via + [""]) if via else "", pp(tgt)))
+                    else:
+                        chk.ob("C12-R1", "%s :: %s" % (f["full"][:90], inst), False, loc(f, n),
+                               "the per-segment callable writes %s, which is shared by all iterations (%s); concurrent iterations race and the result depends on the schedule"
+                               % (pp(tgt), "not indexed by the segment index" if ic == "whole" else "index form " + str(ic[1])),
+                               construct="%s/lambda/%s%s" % (f["cls"], "/".join(via + [""]) if via else "", pp(tgt)))
+                    break  # the outermost chain of the target is the written location
+        # every access (read or write) to the written buffers uses the same injective index
+        for root, sels, top in _all_chains(body):
+            if root.get("k") == "var" and root["id"] in locals_:
+                continue
+            if id(top) in handed_on or id(root) in handed_on:
+                continue
+            key = root_key(root, sels, env)
+            if key in written:
+                ic = index_class(sels, sc, param_txt)
+                if ic != "inj":
+                    chk.ob("C12-R1", "%s :: access %s" % (f["full"][:90], pp(top)), False, loc(f, top),
+                           "buffer written per segment is accessed with another iteration's index (%s)" % (ic,), construct="%s/lambda/access/%s" % (f["cls"], pp(top)))
+
+    scan(spec.get("body"), lambda_locals(spec), sc0, Env(), 0, [])
+    return nwrites[0]
 
 
 def _is_prefix_chain(a, b):
